@@ -1,7 +1,7 @@
 # C08 — graph mutations behave like an abstract directed multigraph
 # (database model coq/theories/Graph.v DbModel.v + hx_core `db` harness, profile `graph`)
 import vlib
-from checks.db_common import run_db
+from checks.db_common import run_db, spec_level
 
 META = dict(
     engine="coq+hx_core",
@@ -41,6 +41,8 @@ def run(ctx):
     n, steps = (150, 30) if ctx.tier == "quick" else (4000, 60)
     r = run_db(ctx, PROFILE, n, steps)
     failures = [f for f in r["failures"] if f["cls"].startswith(CLASSES) or f["cls"] in COMMON]
+    # the validated database model is the proved specification: a result that differs from it is a violation with the history
+    failures += [f for f in spec_level(r) if f["cls"] == "model-mismatch"][:3]
     return dict(
         evaluations=r["cases"], distinct_nontrivial=r["nontrivial"], samples=r["samples"], dist=r["dist"],
         rule="%d generated query histories (profile %s, <= %d steps: ~70%% mutations weighted towards node inserts (counted, aliased, through ids), edge inserts "
